@@ -343,6 +343,24 @@ class C02(ClientProp):
                     out.append(one(rng, 1, ops, zone=z, t0=t0))
         for ch in chunks(grid_type2_ops(ctx, rng), 25):
             out.append(one(rng, 2, ch))
+        # the device resets the session instead of answering the login or the command frame.  The call may simply fail; a client
+        # that starts the operation over on a new connection must send the caller's arguments again, not its defaults
+        def with_reset(o, at):
+            o = dict(o)
+            o["replies"] = [login(rng)][:at] + [{"t": "reset"}] + list(o["replies"])
+            return o
+        z = "Asia/Jerusalem"
+        t0 = float(local_instant(z, 2026, 6, 15, 11, 30)) + 0.25
+        for at in (0, 1):
+            rs1 = [op1(rng, "control_device", {"on": 1, "minutes": m}) for m in (32, 30, 5, 179)] + \
+                  [op1(rng, "control_device", {"on": 0, "minutes": 0}), op1(rng, "set_auto_shutdown", {"secs": 7200}),
+                   op1(rng, "set_device_name", {"cps": [97, 98, 99]}), op1(rng, "delete_schedule", {"slot": 3})] + \
+                  [op1(rng, "create_schedule", sched_args(rng, z, int(t0), "ok")) for _ in range(4)]
+            for o in rs1:
+                out.append(one(rng, 1, [with_reset(o, at), op1(rng, "get_state", {})], zone=z, t0=t0))
+            for pos in (0, 31, 50, 99, 100):
+                o = {"op": "set_position", "a": {"pos": pos}, "replies": [login(rng), ack(rng)]}
+                out.append(one(rng, 2, [with_reset(o, at), {"op": "stop", "a": {}, "replies": [login(rng), ack(rng)]}]))
         return out
 
     assumptions = ClientProp.base_assumptions + [
